@@ -445,7 +445,24 @@ def check_buffer_ops(ctx, tu, sy, f, counts):
     if name == 'push_back':
         side = set()        # (other member container, call) the element was appended to on some path
 
+        slot_calls = set()  # calls of followed helpers that return a reference to the last element (`return buffer.back()`)
+
+        def throwing_assign(node):
+            if node.get('kind') in ('CXXOperatorCallExpr', 'CXXMemberCallExpr', 'CallExpr'):
+                return 'noexcept' not in (tu.sd(node).get('fty') or '').rsplit(')', 1)[-1]
+            return False
+
+        def is_last_slot(e):
+            x = tu.strip(e, casts=True) if e is not None else None
+            if x is None:
+                return False
+            if x.get('id') in slot_calls:
+                return True
+            bc_ = buffer_call(tu, sy, x, fld)
+            return bc_ is not None and bc_[0] == 'back'
+
         # state: appends to the buffer (0, 1, 2 = more) + 100 if the element went to another member container on this path
+        #        + 1000 while an empty slot has been appended that still waits for the value
         def transfer(blk, i, e, st):
             if i == 0:
                 cur['at'] = (blk.id, st)
@@ -454,6 +471,18 @@ def check_buffer_ops(ctx, tu, sy, f, counts):
                 return [st]
             if own_call(tu, n, BUF):
                 found.und(R2, 'push_back delegates to the member %s(): not modelled' % own_call(tu, n, BUF), n)
+            gw = generic_write(tu, n)
+            if gw is not None and is_last_slot(gw[0]):
+                if st >= 1000 and params and mentions_any(sy, gw[1], params):
+                    if throwing_assign(n):
+                        found.viol(R2, FN, 'slot-appended-before-value', 'push_back first appends an empty element and then assigns the '
+                                   'value into it, and that assignment can throw (%s): when it does, the producer sees push_back fail, '
+                                   'but the default-constructed element stays in the buffer and is delivered to the consumer - an '
+                                   'element nobody pushed. vector::push_back / emplace_back(value) has the strong guarantee'
+                                   % (tu.sd(n).get('q') or 'payload assignment'), n)
+                    return [st - 1000 + (1 if st % 100 < 2 else 0)]
+                found.und(R2, 'the last element of the buffer is overwritten in push_back: not modelled', n)
+                return [st]
             bc = buffer_call(tu, sy, n, fld)
             if bc is None:
                 # the element appended to *another* member container of this object
@@ -463,14 +492,31 @@ def check_buffer_ops(ctx, tu, sy, f, counts):
                     if of is not None and of[0] == BUF and of != fld and sy.base_is_this(obj) and last(s_.get('q')) in APPEND + ('insert', 'emplace') \
                             and args and params and any(mentions_any(sy, a, params) for a in args):
                         side.add((of[1], n['id']))
-                        return [st + 100 if st < 100 else st]
+                        return [st + 100 if (st // 100) % 10 == 0 else st]
                 return [st]
             nm, args, const = bc
             if nm in APPEND:
+                if not args and st < 1000:
+                    return [st + 1000]          # an empty slot: the value has to follow (see above)
                 if not (args and params and mentions_any(sy, args[0], params)):
                     found.viol(R2, FN, 'appends-other-value', 'push_back appends something other than its argument', n)
+                else:
+                    a0 = tu.strip(args[0], casts=True)
+                    if a0 is not None and a0.get('kind') == 'CallExpr' and tu.sd(a0).get('q') == 'std::move' and len(tu.kids(a0)) == 2:
+                        pv = sy.local_var(tu.kids(a0)[1])
+                        pd = tu.node(pv) if pv is not None else None
+                        pt = ((pd or {}).get('type', {}).get('desugaredQualType') or (pd or {}).get('type', {}).get('qualType') or '').strip()
+                        rr = tu.records.get(f.get('recid')) or {}
+                        trivial = bool(rr.get('targs') and rr['targs'][0].get('trivially_copyable'))    # moving == copying
+                        if pd is not None and pd.get('kind') == 'ParmVarDecl' and pv in params and pt.endswith('&') and \
+                                not pt.endswith('&&') and not pt.startswith('const ') and not trivial:
+                            found.viol(R2, FN, 'moves-from-lvalue-argument', 'push_back is instantiated for a non-const lvalue argument '
+                                       '(parameter type `%s`) and appends std::move(%s): the caller\'s own object is gutted by the push. A '
+                                       'producer that pushes the same object again (or keeps using it) delivers a moved-from husk - an '
+                                       'element whose value nobody pushed. A forwarding reference has to be passed on with std::forward'
+                                       % (pt, pd.get('name')), n)
                 return [st + 1 if st % 100 < 2 else st]
-            if const or nm in NEUTRAL:
+            if const or nm in NEUTRAL or nm in ('back', 'front', 'operator[]', 'at'):
                 return [st]
             if nm in ('insert', 'emplace'):
                 pe = tu.strip(args[0], casts=True) if args else None
@@ -492,11 +538,24 @@ def check_buffer_ops(ctx, tu, sy, f, counts):
                 found.und(R2, 'non-const call %s() on the buffer in push_back: not modelled' % nm, n)
             return [st]
 
-        res, outs = inl.explore(f, [0], transfer, None, hooks)
+        class PushHooks(C12Hooks):
+            def ret_value(self, e, st):
+                return 'slot' if is_last_slot(e) else None
+
+            def post_call(self, n, cf, st, rv):
+                if rv == 'slot':
+                    slot_calls.add(n['id'])
+                return [st]
+
+        res, outs = inl.explore(f, [0], transfer, None, PushHooks(sy, found, R2, params))
         for (st, _rv, via) in outs:
             if g.blocks[via].noret:
                 continue
-            if st >= 100:
+            if st >= 1000:
+                found.viol(R2, FN, 'appends-other-value', 'push_back appends an empty element and returns without giving it the value of '
+                           'its argument', None, exit_at(res, via))
+                st -= 1000
+            if (st // 100) % 10 == 1:
                 other = sorted({x[0] for x in side})
                 nid = sorted(side)[0][1]
                 found.viol(R2, FN, 'element-in-second-container', 'on some path push_back appends the element to the member container %s '
@@ -1561,6 +1620,197 @@ def check_extra_member(ctx, tu, sy, rec, T, r, member, ct, counts):
 
 
 # ======================================================================================================
+#  lock-free representation of TransactionalValue: one atomic pointer, ownership passed by exchange
+# ======================================================================================================
+def check_lockfree_value(ctx, tu, sy, rec, T, r, names, counts):
+    """TransactionalValue without mutex and flag: a single std::atomic<T*> member Q hands heap nodes from the producer to the
+    consumer.  The guarded-by argument is replaced by ownership: a node is owned by whoever took it out of Q with an atomic
+    exchange, so no two threads ever touch the same node.
+      R-C12-1  every operation on Q in a member function (constructors / destructor exempt) is an exchange with a suitable order;
+               a load whose value is only compared with nullptr is harmless; a load followed by a store of Q in the same function
+               is a non-atomic read-modify-write (recognised wrong: both sides can end up owning one node); currentValue stays
+               consumer-confined
+      R-C12-3  update(): takes the node with exchange(nullptr); installs (currentValue <- *node) exactly when the node is not
+               null; returns true exactly then
+      R-C12-4  assignment: publishes `new T(argument)` with one exchange on every path
+    Returns nothing; unrecognised shapes are undecided."""
+    q = [n_ for n_, ct_ in names.items() if ct_.startswith('std::atomic<') and ct_.rstrip('>').rstrip().endswith('*')]
+    Q = (rec, q[0])
+    CUR = (rec, 'currentValue')
+    file = T['file']
+    short = r['q'].replace('rkcommon::utility::', '')
+    counts[R5] += 1
+    ctx.ok(R5, '%s (lock-free)' % short, 'no lock: nodes are handed over through the atomic pointer %s, ownership by exchange' % Q[1], file)
+    inst_pat = {f.get('pat') for f in tu.functions.values() if not f['dep']}
+    fns = [f for f in tu.functions.values() if f.get('rec') == rec and (f.get('recid') == r['id'] or f['dep']) and tu.body(f) is not None
+           and not (f['dep'] and f['id'] in inst_pat)]
+    for f in fns:
+        if f.get('ctor') or f.get('dtor'):
+            continue
+        name = last(f['q'])
+        FN = fn_short(f)
+        inst = '%s %s%s' % (f['q'].replace('rkcommon::utility::', ''), f['fty'], ' (not instantiated)' if f['dep'] else '')
+        ops = []
+        for x in tu.walk(tu.body(f)):
+            if 'id' not in x:
+                continue
+            a = sy.atomic_op(x)
+            if a is not None and a['field'] == Q and sy.base_is_this(a['obj']):
+                ops.append((a, x))
+        counts[R1] += 1
+        bad = False
+        loads = [(a, x) for a, x in ops if a['op'] == 'load']
+        stores = [(a, x) for a, x in ops if a['op'] == 'store']
+        side = SIDES[VAL].get(name, 'any')
+        if stores and loads:
+            bad = True
+            a, x = stores[0]
+            ctx.violation(R1, inst, '%s reads the shared pointer %s with a load and later overwrites it with a separate store: a '
+                          'non-atomic read-modify-write. If the other side exchanges the pointer in between, both sides own the same '
+                          'node (it is moved from / deleted twice), or a node nobody has seen is overwritten. Ownership has to change '
+                          'hands in one atomic step: %s.exchange(...)' % (name, Q[1], Q[1]), tu.loc(x),
+                          key='%s|%s|%s|%s-load-then-store' % (R1, file, FN, Q[1]), path=['%s: %s' % (tu.loc(y), tu.show(y)) for _a, y in loads + stores])
+        elif stores:
+            bad = True
+            ctx.undecided(R1, inst, 'plain store to the hand-off pointer %s: not modelled' % Q[1], tu.loc(stores[0][1]))
+        for a, x in loads:
+            u = nearest_user(tu, x)
+            if not (stores and loads) and not (u is not None and (u.get('kind') == 'BinaryOperator' and u.get('opcode') in ('==', '!=')
+                                                                    or u.get('kind') in ('UnaryOperator', 'IfStmt', 'WhileStmt'))):
+                bad = True
+                ctx.undecided(R1, inst, 'the value loaded from %s is used other than in a null test: ownership not modelled' % Q[1], tu.loc(x))
+        for a, x in ops:
+            if a['op'] == 'rmw':
+                need = (3, 4, 5) if side == 'producer' else (2, 4, 5) if side == 'consumer' else (4, 5)
+                if a['name'] != 'exchange':
+                    bad = True
+                    ctx.undecided(R1, inst, '%s on the hand-off pointer: not modelled' % a['name'], tu.loc(x))
+                elif a.get('order') not in need:
+                    bad = True
+                    ctx.violation(R1, inst, 'exchange on %s with %s: the %s side needs at least %s for the node contents to be visible '
+                                  'to the thread that takes the node' % (Q[1], ORD.get(a.get('order'), 'a non-constant order'), side,
+                                                                         'release' if side == 'producer' else 'acquire'), tu.loc(x),
+                                  key='%s|%s|%s|weak-memory-order' % (R1, file, FN))
+        for x in tu.walk(tu.body(f)):
+            if 'id' in x and x.get('kind') == 'MemberExpr' and sy.field(x) == CUR and sy.base_is_this(x) and side == 'producer':
+                bad = True
+                ctx.violation(R1, inst, 'the producer-side member %s touches the consumer-confined member currentValue' % name, tu.loc(x),
+                              key='%s|%s|%s|currentValue-in-producer' % (R1, file, FN))
+        if not bad:
+            ctx.ok(R1, inst, '%d operation(s) on %s, all atomic ownership transfers / null tests' % (len(ops), Q[1]), tu.fn_loc(f))
+        if f['dep'] or tu.cfg(f) is None:
+            continue
+        g = tu.cfg(f)
+        if name == 'update':
+            counts[R3] += 1
+            found = Found(file)
+
+            # state: (node var/expr ids that hold the taken node, nonnull: None/True/False, installed)
+            def transfer(blk, i, e, st):
+                ids, nn, inst_ = st
+                n = tu.node(e[1]) if e[0] == 'S' else None
+                if n is None:
+                    return [st]
+                a = sy.atomic_op(n)
+                if a is not None and a['field'] == Q and a['op'] == 'rmw' and a['name'] == 'exchange':
+                    _s, _o, args = tu.call_parts(n)
+                    z = tu.strip(args[0], casts=True) if args else None
+                    if z is not None and z.get('kind') in ('CXXNullPtrLiteralExpr', 'GNUNullExpr', 'IntegerLiteral'):
+                        return [(frozenset({n['id']}), None, inst_)]
+                    found.und(R3, 'update() exchanges something other than nullptr into %s' % Q[1], n)
+                    return [st]
+                if n.get('kind') == 'DeclStmt':
+                    for v in tu.kids(n):
+                        if v.get('kind') == 'VarDecl' and tu.kids(v) and (tu.strip(tu.kids(v)[-1], casts=True) or {}).get('id') in ids:
+                            ids = frozenset(set(ids) | {v['id']})
+                    return [(ids, nn, inst_)]
+                gw = generic_write(tu, n)
+                if gw is not None and sy.field(gw[0]) == CUR:
+                    deref = any(y.get('kind') == 'UnaryOperator' and y.get('opcode') == '*' and
+                                (sy.local_var(tu.kids(y)[0]) in ids or (tu.strip(tu.kids(y)[0], casts=True) or {}).get('id') in ids)
+                                for y in tu.walk(gw[1]))
+                    if not deref:
+                        found.und(R3, 'update() writes currentValue from something other than the node it took', n)
+                        return [st]
+                    if nn is not True:
+                        found.viol(R3, FN, 'install-without-node', 'update() dereferences the pointer it took out of %s on a path where it '
+                                   'was not found non-null' % Q[1], n)
+                    return [(ids, nn, True)]
+                if n.get('kind') == 'ReturnStmt':
+                    v = sy.const_bool(tu.kids(n)[0]) if tu.kids(n) else None
+                    if v is None:
+                        found.und(R3, 'return value of update() is not a constant', n)
+                    elif v and not inst_:
+                        found.viol(R3, FN, 'returns-true-without-install', 'update() returns true on a path that did not install a new value', n)
+                    elif not v and inst_:
+                        found.viol(R3, FN, 'returns-false-after-install', 'update() returns false on a path that installed a new value', n)
+                    if not inst_ and nn is True:
+                        found.viol(R3, FN, 'flag-set-not-installed', 'update() took a node out of %s but returns without installing it: the '
+                                   'value is lost' % Q[1], n)
+                    if not inst_ and nn is None and not ids:
+                        found.viol(R3, FN, 'no-flag-test', 'update() returns without having looked at %s' % Q[1], n)
+                return [st]
+
+            def refine(blk, si, st):
+                ids, nn, inst_ = st
+                if blk.cond is None or len(blk.succ) != 2:
+                    return [st]
+                pol, atom = sy.cond_atom(tu.node(blk.cond))
+                truth = pol if si == 0 else (not pol)
+                if atom is None:
+                    return [st]
+                tgt = None
+                if atom.get('kind') == 'BinaryOperator' and atom.get('opcode') in ('==', '!='):
+                    a0, b0 = tu.kids(atom)
+                    for x_, y_ in ((a0, b0), (b0, a0)):
+                        y1 = tu.strip(y_, casts=True)
+                        x1 = tu.strip(x_, casts=True)
+                        if y1 is not None and y1.get('kind') in ('CXXNullPtrLiteralExpr', 'GNUNullExpr', 'IntegerLiteral') and x1 is not None and \
+                                (sy.local_var(x1) in ids or x1.get('id') in ids):
+                            isnull = truth if atom['opcode'] == '==' else (not truth)
+                            tgt = not isnull
+                elif sy.local_var(atom) in ids or atom.get('id') in ids:
+                    tgt = truth
+                if tgt is None:
+                    return [st]
+                if nn is not None and nn != tgt:
+                    return []
+                return [(ids, tgt, inst_)]
+
+            res = g.explore([(frozenset(), None, False)], transfer, refine)
+            emit(ctx, tu, g, res, found, inst, (R3,), tu.fn_loc(f),
+                 {R3: 'takes the node with exchange(nullptr); installs and returns true exactly when it is not null'})
+        elif name == 'operator=':
+            counts[R4] += 1
+            found = Found(file)
+            params = {p_['id'] for p_ in f.get('params', [])[:1]}
+
+            def transfer(blk, i, e, st):
+                n = tu.node(e[1]) if e[0] == 'S' else None
+                if n is None:
+                    return [st]
+                a = sy.atomic_op(n)
+                if a is not None and a['field'] == Q and a['op'] in ('rmw', 'store'):
+                    _s, _o, args = tu.call_parts(n)
+                    z = tu.strip(args[0], casts=True) if args else None
+                    if z is not None and z.get('kind') == 'CXXNewExpr' and mentions_any(sy, z, params):
+                        return [min(st + 1, 2)]
+                    found.und(R4, 'assignment writes something other than `new T(argument)` into %s' % Q[1], n)
+                return [st]
+
+            res = g.explore([0], transfer, None)
+            for (st, via) in res.exits:
+                if g.blocks[via].noret:
+                    continue
+                if st == 0:
+                    found.viol(R4, FN, 'nothing-queued', 'a path through the assignment does not publish the value', None, exit_at(res, via))
+                elif st > 1:
+                    found.viol(R4, FN, 'published-twice', 'a path through the assignment publishes two nodes: the first one may already '
+                               'have been taken, the consumer then sees the value twice / out of order', None, exit_at(res, via))
+            emit(ctx, tu, g, res, found, inst, (R4,), tu.fn_loc(f), {R4: 'publishes new T(argument) exactly once on every path'})
+
+
+# ======================================================================================================
 #  R-C12-5 the lock type gives acquire / release ordering
 # ======================================================================================================
 TRUSTED_MUTEXES = ('std::mutex', 'std::recursive_mutex', 'std::timed_mutex', 'std::recursive_timed_mutex', 'std::shared_mutex',
@@ -1803,6 +2053,11 @@ def check_tu(ctx, tu, counts):
                 tu.__dict__['_c12_dbv'] = dbvs[0]
                 T = dict(T, guarded=tuple(g_ for g_ in T['guarded'] if g_ in names), confined={})
                 want = set(T['guarded']) | {T['mutex']}
+            atomic_ptrs = [n_ for n_, ct_ in names.items() if ct_.startswith('std::atomic<') and ct_.rstrip('>').rstrip().endswith('*')]
+            if rec == VAL and {'mutex', 'newValue'} <= want - set(names) and 'currentValue' in names and len(atomic_ptrs) == 1:
+                check_lockfree_value(ctx, tu, sy, rec, T, r, names, counts)
+                okrec = False
+                continue
             if not want <= set(names):
                 if rec == VAL and want - set(names) == {'newValue'} and check_counter_indicator(ctx, tu, sy, rec, T, [r]):
                     # the flag was replaced by a recognised-wrong pending test: reported; the other rules need the flag
